@@ -227,6 +227,12 @@ var wraps = map[string]wrapDef{
 	"si[0]=E":   {nil, false, "", ""}, // []interface{}
 	"mi[w]=E":   {nil, false, "", ""}, // map[string]interface{}
 	"e.SS[0]=E": {nil, true, "", ""},  // []string held in a struct field
+	// a Go helper called WITH a block: what it returns is typed like any other result (a string stays a string,
+	// whether or not the helper looks at its block)
+	"ids(E){}":   {nil, true, "", ""},  // string -> string, the block is ignored
+	"id(E){}":    {nil, false, "", ""}, // interface{} -> interface{}, the block is ignored
+	"sblk(E){t}": {nil, true, "", "t"}, // string + the text of its block, returned as a string
+	"trunc(E){}": {nil, true, "", ""},  // a built-in string helper with a trailing block
 }
 
 var sinks = []string{
@@ -291,7 +297,8 @@ func mkData(p, tag string, partials map[string]string) map[string]interface{} {
 		"hs": func() string { return p }, "hi": func() interface{} { return v },
 		"hh": func() template.HTML { return template.HTML(p) }, "hr": func() plush.HTMLer { return htmler{p} },
 		"id": func(x interface{}) interface{} { return x }, "ids": func(s string) string { return s },
-		"blk": func(h plush.HelperContext) (template.HTML, error) { s, err := h.Block(); return template.HTML(s), err },
+		"blk":  func(h plush.HelperContext) (template.HTML, error) { s, err := h.Block(); return template.HTML(s), err },
+		"sblk": func(s string, h plush.HelperContext) (string, error) { b, err := h.Block(); return s + b, err },
 		// fields
 		"e": emb{Base: Base{F: p, H: template.HTML(p), Hr: htmler{p}}, PS: &ps, PH: &ph, I: v, SS: []string{"s0", p}, SI: []interface{}{"i0", v}, MS: map[string]string{"k": p}},
 		// typed collections
@@ -512,6 +519,16 @@ func build(c Case, dropped bool) (src string, partials map[string]string, parts 
 				target := strings.TrimSuffix(wn, "=E")
 				sb.WriteString("<% " + target + " = " + e + " %>")
 				e = target
+			case "ids(E){}", "id(E){}":
+				sb.WriteString("<% let " + name + " = " + strings.TrimSuffix(wn, "(E){}") + "(" + e + ") { %>unused<% } %>")
+				e = name
+			case "sblk(E){t}":
+				sb.WriteString("<% let " + name + " = sblk(" + e + ") { %>t<% } %>")
+				e = name
+				suf += "t"
+			case "trunc(E){}":
+				sb.WriteString("<% let " + name + " = truncate(" + e + ", {size: 100000}) { %><% } %>")
+				e = name
 			case "mh[w]=E", "ms[w]=E", "mi[w]=E":
 				if c.Tag == "htmler" && wn == "mh[w]=E" {
 					return "", nil, nil, "an HTMLer is not a template.HTML"
@@ -987,7 +1004,7 @@ func checkHistory(r *vk.Run, h History) *vk.Fail {
 	return nil
 }
 
-const rule = "payload strings (22 fixed hostile payloads, among them quotes only and a 4.3 kB string with specials at the 64 / 256 / 4096 byte marks; random payloads over the five specials, entity and tag look-alikes, quotes, multi-byte, combining and invalid bytes) x type tag {plain string, template.HTML, HTMLer, raw()} x base (context variable, literal double- and back-quoted, struct / pointer / nested / pointer-in-struct / promoted / embedded / interface-typed field, slice and map of structs, map[string]string, map[string]interface{}, []string / []interface{} / [2]string / [][]string / map[string][]string element, slice and map fields, collections whose element type is template.HTML or an HTMLer, helpers returning string / (string, error) / interface{} / HTML / HTMLer / []string / struct, methods, fields and methods of method results, an HTMLer of string kind / by pointer receiver / that is also a Stringer; and 'weak' bases - *string and *template.HTML variable, pointer-typed field, []*string element, helper returning *string, named string type, wrapper with an Interface() method - for which only 'printed like a value of its tag or not at all, never verbatim' is asserted) x up to 4 wraps (\"\"+E, E+\"\", q+E+r, E+1, E+raw(..), E+trusted variable, lit+E+raw(..), [E][0], [x,E][1], [[E]][0][0], {k:E}[\"k\"], {k:{j:E}}[\"k\"][\"j\"], Go helper, typed Go helper, helper options map, variadic helpers, methods with a parameter, user function, user function with if/return, user function returning an array, closure, parentheses, let, assignment, index assignment, hash-entry assignment, stores into containers supplied from Go - []template.HTML, map[string]template.HTML, []string, map[string]string, []interface{}, map[string]interface{}, a []string field - read back afterwards: a plain string may be refused, never trusted) x sink (top, if, else, else-if, loop variable, loop with key, array emitted whole, array with neighbours, function body, function return, block helper, block helper in if, contentFor+contentOf twice, contentOf data, partial data, partial data with layout, nested partial data, if in for in function, let then block, return inside an emitted if, return inside a loop body; seven 'bare' sinks whose block body is exactly one output tag with no text next to it; loop bodies cut short by continue / break / continue inside an if AFTER the output tag, in slice, map and Iterator loops; map and Iterator loop bodies; array + E, nested arrays, one array emitted several times by one tag, also nested, an array returned by a function emitted whole, loop in loop, function calling function, a function's rendered body held in a variable and emitted twice; one block executed twice by its helper, helper argument handed to the block through BlockWith; one block helper / stored block / partial / function / loop body used several times in ONE execution for trusted and untrusted values in turn, also for the SAME text once as raw(E) and once as E; helper calling Render, partial inside contentFor, block helper inside a partial; a helper whose parameter is template.HTML (a plain string may be rejected, never trusted); plush's own debug() helper, whose argument is text) plus whole-collection sinks ([]string, []interface{} emitted whole; for over []string, []interface{}, [2]string, map[string]string, slice of structs, []template.HTML, []HTMLer, map[string]template.HTML, maps and hash literals whose KEY is the payload, an Iterator, [][]string; collections from a field and from helpers emitted whole; mixed trusted / untrusted collections; weak: []named string, []*string). (E) every base x sink with no wrap, every single wrap x sink from a variable, for all fixed payloads and tags; (N) nests: the output tag (bare or with text) inside up to 4 block constructs nested in any order - if, else, slice / map / Iterator loop, function body, block helper, contentFor+contentOf, contentOf default block, partial - each with or without text next to its content: exhaustive to depth 2, random to depth 4 with random bases and wraps; (H) histories: one parsed template (plush.Template executed repeatedly, and plush.Render with the template cache on, which also re-uses parsed partials) executed 2-5 times while the payload's type and text change, every sink x 3 payloads x 5 tag sequences, and random; (R) random compositions to depth 4. Oracle: entity-decoding matcher over the whole output: plain payloads only entity-encoded and decoding back to the payload, trusted payloads byte-identical, each exactly once. Non-trivial = payload contains a special and the route is not the bare variable at top level; distinct by (route, tag, payload); for histories an execution after the first whose payload contains a special."
+const rule = "payload strings (22 fixed hostile payloads, among them quotes only and a 4.3 kB string with specials at the 64 / 256 / 4096 byte marks; random payloads over the five specials, entity and tag look-alikes, quotes, multi-byte, combining and invalid bytes) x type tag {plain string, template.HTML, HTMLer, raw()} x base (context variable, literal double- and back-quoted, struct / pointer / nested / pointer-in-struct / promoted / embedded / interface-typed field, slice and map of structs, map[string]string, map[string]interface{}, []string / []interface{} / [2]string / [][]string / map[string][]string element, slice and map fields, collections whose element type is template.HTML or an HTMLer, helpers returning string / (string, error) / interface{} / HTML / HTMLer / []string / struct, methods, fields and methods of method results, an HTMLer of string kind / by pointer receiver / that is also a Stringer; and 'weak' bases - *string and *template.HTML variable, pointer-typed field, []*string element, helper returning *string, named string type, wrapper with an Interface() method - for which only 'printed like a value of its tag or not at all, never verbatim' is asserted) x up to 4 wraps (\"\"+E, E+\"\", q+E+r, E+1, E+raw(..), E+trusted variable, lit+E+raw(..), [E][0], [x,E][1], [[E]][0][0], {k:E}[\"k\"], {k:{j:E}}[\"k\"][\"j\"], Go helper, typed Go helper, helper options map, variadic helpers, methods with a parameter, user function, user function with if/return, user function returning an array, closure, parentheses, let, assignment, index assignment, hash-entry assignment, stores into containers supplied from Go - []template.HTML, map[string]template.HTML, []string, map[string]string, []interface{}, map[string]interface{}, a []string field - read back afterwards: a plain string may be refused, never trusted; Go helpers called WITH a block whose result is a string / an interface{} / the argument plus the block's text) x sink (top, if, else, else-if, loop variable, loop with key, array emitted whole, array with neighbours, function body, function return, block helper, block helper in if, contentFor+contentOf twice, contentOf data, partial data, partial data with layout, nested partial data, if in for in function, let then block, return inside an emitted if, return inside a loop body; seven 'bare' sinks whose block body is exactly one output tag with no text next to it; loop bodies cut short by continue / break / continue inside an if AFTER the output tag, in slice, map and Iterator loops; map and Iterator loop bodies; array + E, nested arrays, one array emitted several times by one tag, also nested, an array returned by a function emitted whole, loop in loop, function calling function, a function's rendered body held in a variable and emitted twice; one block executed twice by its helper, helper argument handed to the block through BlockWith; one block helper / stored block / partial / function / loop body used several times in ONE execution for trusted and untrusted values in turn, also for the SAME text once as raw(E) and once as E; helper calling Render, partial inside contentFor, block helper inside a partial; a helper whose parameter is template.HTML (a plain string may be rejected, never trusted); plush's own debug() helper, whose argument is text) plus whole-collection sinks ([]string, []interface{} emitted whole; for over []string, []interface{}, [2]string, map[string]string, slice of structs, []template.HTML, []HTMLer, map[string]template.HTML, maps and hash literals whose KEY is the payload, an Iterator, [][]string; collections from a field and from helpers emitted whole; mixed trusted / untrusted collections; weak: []named string, []*string). (E) every base x sink with no wrap, every single wrap x sink from a variable, for all fixed payloads and tags; (N) nests: the output tag (bare or with text) inside up to 4 block constructs nested in any order - if, else, slice / map / Iterator loop, function body, block helper, contentFor+contentOf, contentOf default block, partial - each with or without text next to its content: exhaustive to depth 2, random to depth 4 with random bases and wraps; (H) histories: one parsed template (plush.Template executed repeatedly, and plush.Render with the template cache on, which also re-uses parsed partials) executed 2-5 times while the payload's type and text change, every sink x 3 payloads x 5 tag sequences, and random; (R) random compositions to depth 4. Oracle: entity-decoding matcher over the whole output: plain payloads only entity-encoded and decoding back to the payload, trusted payloads byte-identical, each exactly once. Non-trivial = payload contains a special and the route is not the bare variable at top level; distinct by (route, tag, payload); for histories an execution after the first whose payload contains a special."
 
 func setup(t *testing.T) *vk.Run {
 	r := vk.Start(t, "C01", rule,
